@@ -315,7 +315,11 @@ def _hmac_setup(it, args):
 def _hmac_post(it, env):
     from pyvc.values import SStr
     g = it.run.ghost
-    key = it.to_z3(env.lookup("key"))
+    key = env.lookup("key")
+    if it.kind_of(key) == "str":
+        # a text key denotes its UTF-8 bytes: all lengths below are BYTE lengths
+        key = it.m_text_encode(key, "utf-8")
+    key = it.to_z3(key)
     msg = env.lookup("msg")
     B = g["B"].e
     hk = Hf(key)
@@ -346,6 +350,40 @@ CONTRACTS.append(Contract(
     setup=_hmac_setup,
     ensures=[("hmac(msg) == H((K0 xor opad) || H((K0 xor ipad) || msg)), K0 = key (hashed only if LONGER than a block) zero-padded to the block size (RFC 2104)", _hmac_post)],
     descr="abstract hash with any block size >= 16 and digest size <= block size, every key length, every message",
+))
+
+
+CONTRACTS.append(Contract(
+    "compile_hmac[text key]", f"{DG}::compile_hmac",
+    params={"digest": Const("sha256"), "key": __import__("pyvc.contract", fromlist=["Str"]).Str(), "multipart": Const(False), "msg": __import__("pyvc.contract", fromlist=["Bytes"]).Bytes()},
+    setup=_hmac_setup,
+    ensures=[("a text key is its UTF-8 encoding: hashed / padded by its BYTE length (RFC 2104 over the encoded key)", _hmac_post)],
+    descr="abstract hash, every text key (utf-8 abstract, length-bounded), every message",
+))
+
+
+def _md4_new(it, args, kwargs):
+    from pyvc.values import SList, SObj
+    return SObj(it.run.fresh("md4 object"), cls=args[0].cls, fresh=True, fields={"_count": 0, "_state": SList([0x67452301, 0xEFCDAB89, 0x98BADCFE, 0x10325476]), "_buf": b""})
+
+
+def _md4_copy_post(it, env):
+    res = it.resolve(env.lookup("result"))
+    me = it.resolve(env.lookup("self"))
+    rs, ms = it.resolve(res.fields["_state"]), it.resolve(me.fields["_state"])
+    same = [it.to_zbool(it.truth(it.cmp_vals("==", a, b))) for a, b in zip(rs.items, ms.items)]
+    return z3.And(z3.BoolVal(res is not me and rs is not ms and len(rs.items) == 4), it.to_zbool(it.truth(it.cmp_vals("==", res.fields["_count"], me.fields["_count"]))),
+                  it.to_zbool(it.truth(it.cmp_vals("==", res.fields["_buf"], me.fields["_buf"]))), *same)
+
+
+CONTRACTS.append(Contract(
+    "md4.copy", f"{M}::md4.copy",
+    params={"self": Obj(cls=(M, "md4"), fields={"_count": Int(lo=0), "_buf": __import__("pyvc.contract", fromlist=["Bytes"]).Bytes()})},
+    setup=lambda it, args: (args["self"].fields.__setitem__("_state", __import__("pyvc.values", fromlist=["SList"]).SList([it.sym_int(f"state{i}") for i in range(4)])), None)[1],
+    globals={"new.*": SStub(_md4_new, "md4()", trusted="md4() starts from the RFC 1320 initial state with an empty buffer")},
+    modifies=[],
+    ensures=[("the copy carries the same block count, buffer and an independent copy of the state: hashing may continue on either object", _md4_copy_post)],
+    descr="any state, any number of blocks already absorbed",
 ))
 
 
@@ -387,4 +425,7 @@ MUTANTS = [
     ("md4: padding length formula off at 55 mod 64", M, "            + b\"\\x00\" * ((119 - len(buf)) % 64)\n", "            + b\"\\x00\" * (64 - (len(buf) + 9) % 64)\n", "refute", "md4.digest"),
     ("md4: state not restored after digest", M, "        self._state = orig\n        return out", "        return out", "refute", "md4.digest"),
     ("md4: harmless F rewrite", M, "    return (x & y) | ((~x) & z)\n", "    return ((~x) & z) | (y & x)\n", "hold"),
+    ("md4.copy forgets the block count", M, "        other = md4()\n        other._count = self._count\n", "        other = md4()\n", "refute", "md4.copy"),
+    ("md4.copy shares the state list", M, "        other._state = list(self._state)", "        other._state = self._state", "refute", "md4.copy"),
+    ("hmac: a text key is measured in characters", DG, "    if not isinstance(key, bytes):\n        key = to_bytes(key, param=\"key\")\n    klen = len(key)\n", "    klen = len(key)\n    if not isinstance(key, bytes):\n        key = to_bytes(key, param=\"key\")\n", "refute", "text key"),
 ]
